@@ -91,6 +91,14 @@ class Exec(Interp):
             raise Unsupported("binop %s" % op)
         full = D.rng(rng[0], rng[1])
         fits = D.subset(ex, full)
+        if not fits and lin is not None and base in ("Add", "Sub", "Mul") and ex:
+            # relational: the exact result is within the type's range although the interval hull is not
+            if S.entails(lin.addc(-rng[1])) and S.entails(lin.scale(-1).addc(rng[0])):
+                fits = True
+                ex = D.meet(ex, full)
+        div_facts = None
+        if base == "Div" and D.is_point(ib) and D.lo(ib) >= 1 and ia and D.lo(ia) >= 0:
+            div_facts = (D.lo(ib), S.term(sa))
         if op.endswith("WithOverflow"):
             o = self.fresh(("v",) + site + ("o",), (0, 1), S)
             if fits:
@@ -103,7 +111,15 @@ class Exec(Interp):
                 S.ovf[o] = (v, lin, inside)
             return Struct("tuple", [Scalar(v), Scalar(o)])
         if fits:
-            return Scalar(self.fresh(("v",) + site, rng, S, ex, lin))
+            r = self.fresh(("v",) + site, rng, S, ex, lin)
+            if div_facts is not None and lin is None:
+                c, x = div_facts
+                rl = Lin.var(r)
+                S.add_fact(rl.scale(c).sub(x))  # c*r <= x
+                S.add_fact(x.sub(rl.scale(c)).addc(-(c - 1)))  # x <= c*r + c-1
+                if c >= 2 and S.entails(x.scale(-1).addc(1)):
+                    S.add_fact(rl.sub(x).addc(1))  # x >= 1, c >= 2  =>  r < x
+            return Scalar(r)
         # wrapping arithmetic that may wrap: sound but imprecise
         return Scalar(self.fresh(("v",) + site, rng, S, full))
 
